@@ -165,6 +165,30 @@ Theorem C06_registry_origin : forall w h n cls,
 Proof. exact registry_origin. Qed.
 Print Assumptions C06_registry_origin.
 
+(* ... and what the DEFINITION of an application class registers (metaclass RemoteCopyClass.__init__, translated:
+   metaclass_registers; define_class is the list of registration events a class statement amounts to): "only of classes
+   EXPLICITLY registered" -- a class that opts out (copytype = None, or ""), or that gives no copytype (the definition fails), is
+   registered under no name, whatever its typeToCopy (the name it is SENT as) and whatever registry it names ... *)
+Theorem C06_optout_class_not_registered : forall ttc priv em cls,
+  define_class CtNone ttc priv em cls = [] /\ define_class CtAbsent ttc priv em cls = [] /\
+  define_class (CtStr ""%string) ttc priv em cls = [].
+Proof. exact optout_class_not_registered. Qed.
+Print Assumptions C06_optout_class_not_registered.
+
+(* ... it leaves every state as it is ... *)
+Theorem C06_optout_class_inert : forall w st ttc priv em cls,
+  run w st (define_class CtNone ttc priv em cls) = (st, []).
+Proof. exact optout_class_inert. Qed.
+Print Assumptions C06_optout_class_inert.
+
+(* ... and every other class definition is ONE registration, under the class's own non-empty copytype (never its typeToCopy), into
+   the registry the class names; what such a registration does is RegisterCopy / RegisterCopyPriv above *)
+Theorem C06_class_definition_registers_copytype_only : forall ct ttc priv em cls e,
+  In e (define_class ct ttc priv em cls) ->
+  exists n, ct = CtStr n /\ n <> ""%string /\ e = (if priv then RegisterCopyPriv n cls em else RegisterCopy n cls).
+Proof. exact class_definition_registers_copytype_only. Qed.
+Print Assumptions C06_class_definition_registers_copytype_only.
+
 (* the set of OPEN types is closed: everything accepted below the top level is plain data or one of the four reference
    forms, nothing that names code; the top level accepts call / answer / error only *)
 Theorem C06_open_types_closed :
